@@ -171,6 +171,10 @@ type testLit struct {
 	keys    []string
 	keysConst bool
 	pos     string
+	// non-constant code / keys (a constructor helper's parameters), for expansion per call site
+	codeVal ssa.Value
+	keyVals []ssa.Value
+	via     string // the helper the literal was expanded from
 }
 
 // testLiterals finds every construction site of a Test value.
@@ -217,6 +221,7 @@ func (P *Prog) testLiterals() []testLit {
 									tl.code = s
 								} else {
 									tl.codeConst = false
+									tl.codeVal = y.Val
 								}
 							}
 							if sameField(f, paramsF) {
@@ -232,6 +237,7 @@ func (P *Prog) testLiterals() []testLit {
 												tl.keys = append(tl.keys, s)
 											} else {
 												tl.keysConst = false
+												tl.keyVals = append(tl.keyVals, mu.Key)
 											}
 										}
 									}
@@ -251,6 +257,107 @@ func (P *Prog) testLiterals() []testLit {
 			sort.Strings(tl.keys)
 			out = append(out, tl)
 		})
+	}
+	return P.expandLiteralTemplates(out, 0)
+}
+
+// expandLiteralTemplates: a Test literal inside a constructor helper whose
+// issue code / parameter keys are the helper's own parameters is a template;
+// it stands for one literal per call site of the helper, with the actual
+// arguments substituted (`newTimeTest(zconst.IssueCodeAfter, t)`). A template
+// whose every call site could be expanded is replaced by its instances.
+func (P *Prog) expandLiteralTemplates(lits []testLit, depth int) []testLit {
+	if depth > 3 {
+		return lits
+	}
+	paramIdx := func(fn *ssa.Function, v ssa.Value) int {
+		p, ok := cv(v).(*ssa.Parameter)
+		if !ok {
+			return -1
+		}
+		for i, q := range fn.Params {
+			if q == p {
+				return i
+			}
+		}
+		return -1
+	}
+	var out []testLit
+	changed := false
+	for _, tl := range lits {
+		if tl.codeConst && tl.keysConst {
+			out = append(out, tl)
+			continue
+		}
+		// every non-constant slot must be a parameter of the enclosing function
+		okT := true
+		if !tl.codeConst && (tl.codeVal == nil || paramIdx(tl.fn, tl.codeVal) < 0) {
+			okT = false
+		}
+		for _, kv := range tl.keyVals {
+			if paramIdx(tl.fn, kv) < 0 {
+				okT = false
+			}
+		}
+		if !tl.keysConst && len(tl.keyVals) == 0 {
+			okT = false
+		}
+		if !okT || tl.fn.Parent() != nil {
+			out = append(out, tl)
+			continue
+		}
+		// call sites of the helper; its value must not escape as a function value
+		var sites []*ssa.Call
+		escapes := false
+		for _, caller := range P.Funcs {
+			eachInstr(caller, func(_ *ssa.BasicBlock, _ int, in ssa.Instruction) {
+				if c, ok := in.(*ssa.Call); ok {
+					if ci := callOf(c); ci.static == tl.fn {
+						sites = append(sites, c)
+						return
+					}
+				}
+				var ops []*ssa.Value
+				for _, op := range in.Operands(ops) {
+					if f, ok := (*op).(*ssa.Function); ok && f == tl.fn {
+						if c, isCall := in.(ssa.CallInstruction); !isCall || c.Common().Value != ssa.Value(f) {
+							escapes = true
+						}
+					}
+				}
+			})
+		}
+		if len(sites) == 0 || escapes || isExportedAPI(tl.fn) {
+			out = append(out, tl)
+			continue
+		}
+		for _, c := range sites {
+			nt := testLit{fn: c.Parent(), hasCode: tl.hasCode, code: tl.code, codeConst: true, keysConst: true, keys: append([]string{}, tl.keys...), pos: P.ipos(c), via: fname(tl.fn)}
+			args := c.Call.Args
+			if !tl.codeConst {
+				a := args[paramIdx(tl.fn, tl.codeVal)]
+				if sv, ok := constString(cv(a)); ok {
+					nt.code = sv
+				} else {
+					nt.codeConst, nt.codeVal = false, cv(a)
+				}
+			}
+			for _, kv := range tl.keyVals {
+				a := args[paramIdx(tl.fn, kv)]
+				if sv, ok := constString(cv(a)); ok {
+					nt.keys = append(nt.keys, sv)
+				} else {
+					nt.keysConst = false
+					nt.keyVals = append(nt.keyVals, cv(a))
+				}
+			}
+			sort.Strings(nt.keys)
+			out = append(out, nt)
+			changed = true
+		}
+	}
+	if changed {
+		return P.expandLiteralTemplates(out, depth+1)
 	}
 	return out
 }
@@ -801,43 +908,105 @@ func (P *Prog) checkPrecedence(r *Result) {
 			}
 		})
 	}
-	// ExecCtx.AddIssue: Fmter called iff Message == ""
+	// ExecCtx.AddIssue: on every path to the sink, Fmter is called iff Message == "" (helpers such as FmtErr entered)
 	if fn := P.fn("(*zog/internals.ExecCtx).AddIssue"); fn != nil {
 		fmterF := structField(R.ExecCtx, "Fmter")
+		errorsF := structField(R.ExecCtx, "Errors")
 		msgF := structField(R.ZogIssue, "Message")
-		okCall, guardedEmpty := false, false
-		var iffBlk *ssa.BasicBlock
-		eachInstr(fn, func(b *ssa.BasicBlock, _ int, in ssa.Instruction) {
-			ci := callOf(in)
-			if ci == nil || !ci.dynamic {
-				return
+		spec := &pathSpec{name: "execution-formatter"}
+		spec.cond = func(iff *ssa.If) (string, string, string) {
+			bo, ok := cv(iff.Cond).(*ssa.BinOp)
+			if !ok || (bo.Op != token.EQL && bo.Op != token.NEQ) {
+				return "", "", ""
 			}
-			if _, f := loadOfField(cv(ci.instr.Common().Value)); f != nil && sameField(f, fmterF) {
-				okCall = true
-				for _, gd := range guardsOf(b) {
-					if bo, ok := gd.If.Cond.(*ssa.BinOp); ok && (bo.Op == token.EQL || bo.Op == token.NEQ) {
-						var other ssa.Value
-						if _, f2 := loadOfField(cv(bo.X)); f2 != nil && sameField(f2, msgF) {
-							other = bo.Y
-						} else if _, f2 := loadOfField(cv(bo.Y)); f2 != nil && sameField(f2, msgF) {
-							other = bo.X
+			var other ssa.Value
+			if _, f2 := loadOfField(cv(bo.X)); f2 != nil && sameField(f2, msgF) {
+				other = bo.Y
+			} else if _, f2 := loadOfField(cv(bo.Y)); f2 != nil && sameField(f2, msgF) {
+				other = bo.X
+			}
+			if other == nil {
+				return "", "", ""
+			}
+			if sv, isS := constString(cv(other)); !isS || sv != "" {
+				return "", "", ""
+			}
+			if bo.Op == token.EQL {
+				return "MSG-EMPTY", "T", "F"
+			}
+			return "MSG-EMPTY", "F", "T"
+		}
+		spec.events = func(in ssa.Instruction) []pathItem {
+			ci := callOf(in)
+			if ci == nil {
+				return nil
+			}
+			if ci.dynamic {
+				if _, f := loadOfField(cv(ci.instr.Common().Value)); f != nil && sameField(f, fmterF) {
+					return []pathItem{{kind: "FMT", in: in}}
+				}
+				return nil
+			}
+			if (ci.static != nil && ci.static.Name() == "Add" || ci.invoke != nil && ci.invoke.Name() == "Add") && len(ci.args()) > 0 {
+				if _, f := loadOfField(cv(ci.args()[0])); f != nil && sameField(f, errorsF) {
+					return []pathItem{{kind: "SINK", in: in}}
+				}
+			}
+			return nil
+		}
+		res := P.enumPathsSpec(fn, nil, spec)
+		nFmt, nSink := 0, 0
+		var problems []string
+		for _, p := range res.paths {
+			if p.end != "RETURN" {
+				continue
+			}
+			si := p.index("SINK")
+			if si < 0 {
+				continue // decided by C01/sink
+			}
+			nSink++
+			empty, tested := false, false
+			fmtBeforeSink := 0
+			for i, it := range p.items {
+				switch it.kind {
+				case "MSG-EMPTY":
+					if i < si {
+						tested = true
+						empty = it.val == "T"
+					}
+				case "FMT":
+					if i < si {
+						fmtBeforeSink++
+						if !tested {
+							problems = append(problems, "the execution's formatter is applied without testing whether the message is still empty: it can override a test-level Message  [path: "+p.String()+"]")
 						}
-						if s, isS := constString(other); isS && s == "" && gd.True == (bo.Op == token.EQL) {
-							guardedEmpty = true
-							iffBlk = gd.If.Block()
-						}
+					} else {
+						problems = append(problems, "the execution's formatter runs after the issue was filed  [path: "+p.String()+"]")
 					}
 				}
 			}
-		})
-		_ = iffBlk
+			nFmt += fmtBeforeSink
+			switch {
+			case tested && empty && fmtBeforeSink != 1:
+				problems = append(problems, fmt.Sprintf("an issue whose message is still empty is filed with %d formatter calls (expected 1)  [path: %s]", fmtBeforeSink, p.String()))
+			case tested && !empty && fmtBeforeSink != 0:
+				problems = append(problems, "the execution's formatter is applied although the issue already has a message: it overrides a test-level Message  [path: "+p.String()+"]")
+			case !tested && fmtBeforeSink == 0:
+				problems = append(problems, "an issue is filed without consulting the execution's formatter  [path: "+p.String()+"]")
+			}
+		}
 		switch {
-		case !okCall:
-			r.bad("C11/precedence", "ExecCtx.AddIssue#execution-formatter", P.pos(fn.Pos()), "the execution's formatter is never applied: issues without a test-level message stay without a message")
-		case !guardedEmpty:
-			r.bad("C11/precedence", "ExecCtx.AddIssue#execution-formatter", P.pos(fn.Pos()), "the execution's formatter is not applied exactly when the message is still empty: it can override a test-level Message")
+		case res.capHit:
+			r.undecided("C11/precedence", "ExecCtx.AddIssue#execution-formatter", P.pos(fn.Pos()), "too many paths to enumerate")
+		case nSink == 0:
+			r.bad("C11/precedence", "ExecCtx.AddIssue#execution-formatter", P.pos(fn.Pos()), "no path of ExecCtx.AddIssue files the issue")
+		case nFmt == 0:
+			r.bad("C11/precedence", "ExecCtx.AddIssue#execution-formatter", P.pos(fn.Pos()), "the execution's formatter is never applied: issues without a test-level message stay without a message", uniqSorted(problems)...)
+		case len(problems) > 0:
+			r.bad("C11/precedence", "ExecCtx.AddIssue#execution-formatter", P.pos(fn.Pos()), "the execution's formatter is not applied exactly when the message is still empty: it can override a test-level Message", uniqSorted(problems)...)
 		default:
-			r.ok("C11/precedence", "ExecCtx.AddIssue#execution-formatter", P.pos(fn.Pos()), "execution formatter runs only if the message is still empty")
+			r.ok("C11/precedence", "ExecCtx.AddIssue#execution-formatter", P.pos(fn.Pos()), fmt.Sprintf("on each of the %d paths to the sink the execution formatter runs exactly when the message is still empty", nSink))
 		}
 	} else {
 		r.broken("anchor ExecCtx.AddIssue not found")
